@@ -594,6 +594,7 @@ carquet_status_t parquet_parse_file_metadata(
 
     thrift_type_t type;
     int16_t field_id;
+    unsigned required_seen = 0;  /* bit per required field: version, schema, num_rows, row_groups */
 
     while (thrift_read_field_begin(&dec, &type, &field_id)) {
         if (thrift_decoder_has_error(&dec)) {
@@ -603,9 +604,11 @@ carquet_status_t parquet_parse_file_metadata(
 
         switch (field_id) {
             case 1:  /* version */
+                required_seen |= 1u;
                 metadata->version = thrift_read_i32(&dec);
                 break;
             case 2: {  /* schema */
+                required_seen |= 2u;
                 thrift_type_t elem_type;
                 int32_t count;
                 thrift_read_list_begin(&dec, &elem_type, &count);
@@ -624,9 +627,11 @@ carquet_status_t parquet_parse_file_metadata(
                 break;
             }
             case 3:  /* num_rows */
+                required_seen |= 4u;
                 metadata->num_rows = thrift_read_i64(&dec);
                 break;
             case 4: {  /* row_groups */
+                required_seen |= 8u;
                 thrift_type_t elem_type;
                 int32_t count;
                 thrift_read_list_begin(&dec, &elem_type, &count);
@@ -691,6 +696,15 @@ carquet_status_t parquet_parse_file_metadata(
     if (thrift_decoder_has_error(&dec)) {
         CARQUET_SET_ERROR(error, dec.status, "%s", dec.error_message);
         return dec.status;
+    }
+
+    /* version, schema, num_rows and row_groups are required by the format: a
+     * footer without them is not file metadata (e.g. the tail of a truncated
+     * file that happens to end in "<length> PAR1"). */
+    if (required_seen != 15u) {
+        CARQUET_SET_ERROR(error, CARQUET_ERROR_INVALID_METADATA,
+            "File metadata lacks a required field");
+        return CARQUET_ERROR_INVALID_METADATA;
     }
 
     return CARQUET_OK;
